@@ -347,4 +347,8 @@ def obligations(tier, seed):
                     timeout=T_, runs=RUNS, sym="partition start, both sector chains, both windows, byte index",
                     bound=f"two AKAI samples <= {1100 if q else 2100} frames each, alternating block reads by the real PipelineTranscoder",
                     stubs=["AbsFile/Spans", "NpShim"]))
+    # whole-image histories on ONE image object (AKAI, S-770 incl. two samples inside one FAT chain, CDDA): shared with C16.hist
+    from vf.props import c16 as _c16
+    for o in _c16.hist_obligations(tier):
+        obs.append(dict(o, name=o["name"].replace("C16.hist/", "C11.hist/")))
     return obs
